@@ -94,8 +94,10 @@ func ruleQueue(q *QSpec, path string, parentEffMax Res, parentMaxApps uint64, in
 	// limits
 	own := map[string]LimitSpec{}
 	for _, l := range q.Limits {
-		if !l.MaxRes.FitsInMaxUndef(effMax) {
-			return fmt.Sprintf("limit: a limit of %s allows %s, the queue maximum is %s", path, l.MaxRes, effMax)
+		// the statement speaks of the queue maximum: the one the queue configures (a limit above what an ancestor
+		// allows is not excluded by it, and is harmless: the ancestor's maximum holds anyway)
+		if !l.MaxRes.FitsInMaxUndef(q.Max) {
+			return fmt.Sprintf("limit: a limit of %s allows %s, the queue maximum is %s", path, l.MaxRes, q.Max)
 		}
 		if q.MaxApps != 0 && l.MaxApps > q.MaxApps {
 			return fmt.Sprintf("limit: a limit of %s allows %d applications, the queue %d", path, l.MaxApps, q.MaxApps)
